@@ -48,22 +48,32 @@ class Patched:
     """Replace the RNG entry points used by the randomisation code by
     `supplier(kind, arg)`; restores them on exit."""
 
-    def __init__(self, K, supplier):
-        self.K, self.sup = K, supplier
+    def __init__(self, K, supplier, spy_zeros=False):
+        self.K, self.sup, self.spy_zeros = K, supplier, spy_zeros
 
     def __enter__(self):
         self.o_random = np.random.random
         self.o_uniform = np.random.uniform
         self.o_randint = self.K.randint
+        self.o_zeros = np.zeros
+        self.zeros = []          # 1-d integer arrays allocated through np.zeros (BA: targets, last_child)
         np.random.random = lambda *a, **k: self.sup("random", a[0] if a else k.get("size"))
         np.random.uniform = lambda low=0.0, high=1.0, size=None: self.sup("uniform", (low, high, size))
         self.K.randint = lambda *a, **k: self.sup("randint", a[0])
+        if self.spy_zeros:
+            def zeros(*a, **k):
+                out = self.o_zeros(*a, **k)
+                if out.ndim == 1 and out.dtype.kind == "i":
+                    self.zeros.append(out)
+                return out
+            np.zeros = zeros
         return self
 
     def __exit__(self, *exc):
         np.random.random = self.o_random
         np.random.uniform = self.o_uniform
         self.K.randint = self.o_randint
+        np.zeros = self.o_zeros
         return False
 
 
@@ -286,11 +296,11 @@ MODES = {"I": "1", "II": "2", "III": "3"}
 def run(ctx):
     from pyunicorn.core._ext import numerics as K
     from pyunicorn.core._ext.types import ADJ, FIELD, NODE, DEGREE
-    from pyunicorn.core import Network, SpatialNetwork, Grid, InteractingNetworks
+    from pyunicorn.core import Network, SpatialNetwork, Grid, InteractingNetworks, GeoNetwork, GeoGrid
     import pyunicorn.core.interacting_networks as IN
     rng = ctx.rng
     quick = ctx.tier == "quick"
-    scale = 4 if quick else 50
+    scale = 8 if quick else 50
     ctx.rule = ("case = (operation, level, input network / partition / distance matrix / tolerance / "
                 "parameters, recorded draw stream); distinct = distinct canonical encodings; "
                 "non-trivial = at least one rewiring / link placement actually happened "
@@ -312,15 +322,27 @@ def run(ctx):
     # 1. geographical rewiring, kernel level
     # ------------------------------------------------------------------
     def geo_case(level):
-        n = rng.choice([4, 4, 5, 5, 6, 7, 8, 9] if quick else [4, 5, 6, 7, 8, 9, 10, 12])
+        n = rng.choice([2, 3, 4, 4, 5, 5, 6, 7, 8, 9] if quick else [2, 3, 4, 5, 6, 7, 8, 9, 10, 12, 16])
         gk, A = structured_graph(rng, n)
+        if rng.random() < 0.2 and n >= 4:
+            # degenerate: isolated nodes (also the last ones), several components
+            for v in rng.sample(range(n), rng.randrange(1, max(2, n // 2))):
+                A[v, :] = A[:, v] = 0
+            gk += "+isolated"
         dk, D = dist_matrix(rng, n)
-        eps = rng.choice([1, 1, 2, 3, 5, 400])
+        eps = rng.choice([1, 1, 2, 3, 5, 400, 2 ** 40])
         mode = rng.choice(["I", "II", "III"])
         ctx.count(f"geo:{level}:mode={mode}")
         ctx.count(f"geo:graph={gk}")
-        ctx.count(f"geo:D={dk}:eps={'big' if eps == 400 else eps}")
+        ctx.count(f"geo:D={dk}:eps={'big' if eps >= 400 else eps}")
         return n, A, D, eps, mode
+
+    def pow2_shift():
+        """extreme-but-exact rescaling of distances and tolerance: the conditions are scale invariant,
+        and quarter-integers below 2^42 times 2^sh are exact in float32"""
+        sh = rng.choice([0, 0, 0, 0, -20, 20, -60, 60, -100, 80])
+        ctx.count(f"geo:pow2-shift={'0' if sh == 0 else ('neg' if sh < 0 else 'pos')}")
+        return sh
 
     def uniform_pairs(E, budget):
         """supplier for numpy.random.random(): u with floor(u*E) = chosen edge index"""
@@ -338,12 +360,13 @@ def run(ctx):
             return u
         return sup, state
 
-    def call_geo_kernel(mode, iterations, A, D, eps, edges, deg, budget):
+    def call_geo_kernel(mode, iterations, A, D, eps, edges, deg, budget, sh=0):
         """runs the compiled kernel in place; returns (completed, draws)"""
         E = len(edges)
         sup, state = uniform_pairs(E, budget)
-        Df = (D / 4.0).astype(FIELD)
-        args = [iterations, eps / 4.0, A, Df, E, edges]
+        Df = (D * 2.0 ** sh / 4.0).astype(FIELD)
+        assert np.array_equal(Df.astype(np.float64), D * 2.0 ** sh / 4.0)      # exact in float32
+        args = [iterations, eps * 2.0 ** sh / 4.0, A, Df, E, edges]
         if mode == "III":
             args.append(deg)
         completed = True
@@ -361,7 +384,7 @@ def run(ctx):
         return (f"{tag} {MODES[mode]} {n} {enc_mat(A0)} {enc_mat(D)} {eps} {enc_vec(deg)} "
                 f"{enc_mat(edges0)} {iterations} {enc_mat(draws)}")
 
-    n_geo = (600 if quick else 8000)
+    n_geo = (900 if quick else 8000)
     for _ in range(n_geo):
         n, A, D, eps, mode = geo_case("kernel")
         A = A.astype(ADJ)
@@ -370,6 +393,7 @@ def run(ctx):
         el = [e if rng.random() < 0.5 else (e[1], e[0]) for e in el]
         edges = np.array(el, dtype=NODE).reshape(len(el), 2)
         deg = A.sum(axis=1).astype(DEGREE)
+        sh = pow2_shift()
         if len(el) == 0:
             # E = 0: only iterations = 0 is defined
             A0, e0 = A.copy(), edges.copy()
@@ -382,10 +406,11 @@ def run(ctx):
         steps = rng.choice([1, 2, 4, 8])
         for _s in range(steps):
             A0, e0 = A.copy(), edges.copy()
-            completed, draws = call_geo_kernel(mode, 1, A, D, eps, edges, deg, len(el) ** 2 + 5)
+            completed, draws = call_geo_kernel(mode, 1, A, D, eps, edges, deg, len(el) ** 2 + 5, sh)
             reqs.append(geo_req("geo", mode, n, A0, D, eps, deg, e0, 1, draws))
             impl.append(f"{enc_mat(A)}|{enc_mat(edges)}|{'1' if completed else '<'}")
             rp = {"call": f"_randomly_rewire_geomodel_{mode}", "iterations": 1, "eps": eps / 4.0,
+                  "scale_all_distances_by_2**": sh,
                   "A": A0.tolist(), "D": (D / 4.0).tolist(), "edges": e0.tolist(),
                   "degree": deg.tolist(), "edge_index_draws": draws, "A_after": A.tolist()}
             geo_oracle(ctx, mode, A0, A, edges, D, eps, "kernel", rp, True)
@@ -397,12 +422,14 @@ def run(ctx):
             if not completed:
                 break
         # (b) a whole run
-        iters = rng.choice([0, 2, 3, 5, 10, 20])
+        iters = rng.choice([0, 2, 3, 5, 10, 20, 60])
         A0, e0 = A.copy(), edges.copy()
-        completed, draws = call_geo_kernel(mode, iters, A, D, eps, edges, deg, min(2500, 5 + iters * (len(el) ** 2 + 5)))
+        completed, draws = call_geo_kernel(mode, iters, A, D, eps, edges, deg,
+                                           min(2500, 5 + iters * (len(el) ** 2 + 5)), sh)
         reqs.append(geo_req("geo", mode, n, A0, D, eps, deg, e0, iters, draws))
         impl.append(f"{enc_mat(A)}|{enc_mat(edges)}|{iters if completed else '<'}")
         rp = {"call": f"_randomly_rewire_geomodel_{mode}", "iterations": iters, "eps": eps / 4.0,
+              "scale_all_distances_by_2**": sh,
               "A": A0.tolist(), "D": (D / 4.0).tolist(), "edges": e0.tolist(),
               "degree": deg.tolist(), "edge_index_draws": draws, "A_after": A.tolist()}
         geo_oracle(ctx, mode, A0, A, edges, D, eps, "kernel", rp, False)
@@ -413,10 +440,97 @@ def run(ctx):
                    "(adjacency, edge array, loop counter; recorded draws)", reqs, impl)
 
     # ------------------------------------------------------------------
-    # 2. geographical rewiring through SpatialNetwork
+    # 2. geographical rewiring through the public methods: histories on one object
+    #    (the model derives edge list, E and the degree array itself: `geoMethod`)
     # ------------------------------------------------------------------
+    def dist_variant(D, sh):
+        """the caller's distance matrix in different widths / layouts"""
+        base = D * 2.0 ** sh / 4.0
+        v = rng.choice(["f64", "f64", "f32", "fortran", "strided", "f32-fortran"])
+        ctx.count(f"geo:method:distance_matrix={v}")
+        if v == "f64":
+            return base.copy()
+        if v == "f32":
+            return base.astype(np.float32)
+        if v == "fortran":
+            return np.asfortranarray(base)
+        if v == "f32-fortran":
+            return np.asfortranarray(base.astype(np.float32))
+        big = np.full((2 * base.shape[0], 2 * base.shape[1]), -7.0)
+        big[::2, ::2] = base
+        return big[::2, ::2]
+
+    def frac_mat(M):
+        return ";".join(",".join(f"{Fraction(float(x)).numerator}/{Fraction(float(x)).denominator}"
+                                 for x in row) for row in np.asarray(M))
+
+    def make_spatial(n, A):
+        kind = rng.choice(["SpatialNetwork", "SpatialNetwork", "GeoNetwork"])
+        ctx.count(f"geo:method:class={kind}")
+        if kind == "GeoNetwork":
+            lat = np.array([rng.uniform(-80, 80) for _ in range(n)])
+            lon = np.array([rng.uniform(-170, 170) for _ in range(n)])
+            grid = GeoGrid(np.arange(2.0), lat, lon, silence_level=3)
+            return GeoNetwork(grid=grid, adjacency=A, directed=False, silence_level=3)
+        grid = Grid(np.arange(2.0), np.array([[rng.uniform(-3, 3) for _ in range(n)],
+                                              [rng.uniform(-3, 3) for _ in range(n)]]), silence_level=3)
+        return SpatialNetwork(grid=grid, adjacency=A, directed=False, silence_level=3)
+
+    def object_coherent(net, A1):
+        return (net.N == A1.shape[0] and net.n_links == len(edge_list(A1))
+                and sorted(map(tuple, net.graph.get_edgelist())) == edge_list(A1)
+                and np.array_equal(net.degree(), A1.sum(axis=1))
+                and np.array_equal(np.asarray(net.sp_A.todense()), A1))
+
+    def dist_step(net, hist):
+        """one call of set_random_links_by_distance on `net`, compared with the model"""
+        n = net.N
+        A0 = net.adjacency.copy()
+        a, b = rng.choice([0.0, -0.5, -1.0, 0.25]), rng.choice([0.0, -0.1, -0.5, -4.0, 0.3])
+        with np.errstate(all="ignore"):
+            pm = np.exp(a + b * net.grid.distance())        # the same expression as the method's
+        Pm = np.array([[rng.randrange(0, 64) / 64.0 for _ in range(n)] for _ in range(n)])
+        tie = rng.random() < 0.3
+        if tie:
+            # hit the boundary of `>=` exactly: P[i,j] = P[j,i] = p[i,j] where p < 1
+            for i in range(n):
+                for j in range(i):
+                    if rng.random() < 0.5 and 0 <= pm[i, j] < 1 and pm[i, j] == pm[j, i]:
+                        Pm[i, j] = Pm[j, i] = float(pm[i, j])
+        ctx.count("dist:" + ("with-ties" if tie else "dyadic-P"))
+        seen = {}
+
+        def sup(kind, arg):
+            assert kind == "random" and tuple(arg) == (n, n), (kind, arg)
+            seen["shape"] = tuple(arg)
+            return Pm.copy()
+        rp = {"call": f"{type(net).__name__}.set_random_links_by_distance", "a": a, "b": b,
+              "history": list(hist), "A": A0.tolist(), "random_matrix": Pm.tolist()}
+        try:
+            with Patched(K, sup):
+                net.set_random_links_by_distance(a=a, b=b)
+        except Exception as e:  # noqa
+            ctx.fail({"kind": "model", "generator": "set_random_links_by_distance", "invariant": "raises",
+                      "error": type(e).__name__}, f"set_random_links_by_distance raised {e!r}", rp)
+            return False
+        A1 = net.adjacency
+        rp["A_after"] = A1.tolist()
+        if not np.all(np.isfinite(pm)):
+            ctx.count("dist:non-finite-p (not compared)")
+        else:
+            reqs.append(f"dist {n} {frac_mat(pm)} {frac_mat(Pm)}")
+            impl.append(enc_mat(A1))
+        if A1.shape != A0.shape or not simple_undirected(A1) or not object_coherent(net, A1) or \
+                (a == 0.0 and b == 0.0 and int(A1.sum()) != n * (n - 1)):
+            ctx.fail({"kind": "model", "generator": "set_random_links_by_distance", "invariant": "simple"},
+                     "set_random_links_by_distance: result not undirected loop-free on the same nodes / "
+                     "p=1 not complete / object incoherent", rp)
+        ctx.case(("dist", n, a, b, Pm.tobytes().hex(), A1.tobytes().hex()), A1.sum() > 0)
+        ctx.count(f"set_random_links_by_distance:{type(net).__name__}")
+        return True
+
     reqs, impl = [], []
-    for _ in range(200 if quick else 2500):
+    for _ in range(450 if quick else 2500):
         for _try in range(12):
             n, A, D, eps, mode = geo_case("method")
             D = np.maximum(D, D.T)
@@ -428,49 +542,77 @@ def run(ctx):
                                      A.sum(axis=1).astype(DEGREE), len(el) ** 2 + 5)
             if ok or rng.random() < 0.1:
                 break
-        if A.sum() == 0:
+        if A.sum() == 0 or n < 2:
             continue
-        grid = Grid(np.arange(2.0), np.array([np.arange(n) * 1.0, np.arange(n) * 2.0]), silence_level=3)
-        net = SpatialNetwork(grid=grid, adjacency=A, directed=False, silence_level=3)
-        A0 = net.adjacency.copy()
-        e0 = np.array(net.graph.get_edgelist())
-        deg = A0.sum(axis=1)
-        iters = rng.choice([1, 1, 2, 5, 12])
-        if sorted(map(tuple, e0.tolist())) != edge_list(A0) or net.n_links != len(e0):
-            ctx.fail({"kind": "geo", "level": "method", "invariant": "edge-list-precondition"},
-                     "graph.get_edgelist()/n_links disagree with adjacency before rewiring",
-                     {"A": A0.tolist(), "edgelist": e0.tolist(), "n_links": int(net.n_links)})
-            continue
-        sup, state = uniform_pairs(len(e0), min(2500, 5 + iters * (len(e0) ** 2 + 5)))
-        completed = True
-        with Patched(K, sup):
-            try:
-                getattr(net, "randomly_rewire_geomodel_" + mode)(
-                    distance_matrix=D / 4.0, iterations=iters, inaccuracy=eps / 4.0)
-            except Stop:
-                completed = False
-        if not completed:
-            ctx.count("geo:method:budget-exhausted")
-            continue            # the object was not updated (exception inside the kernel)
-        idx = state["idx"]
-        draws = list(zip(idx[::2], idx[1::2]))
-        A1 = net.adjacency
-        reqs.append(geo_req("geoA", mode, n, A0, D, eps, deg, e0, iters, draws))
-        impl.append(f"{enc_mat(A1)}|{iters}")
-        rp = {"call": f"SpatialNetwork.randomly_rewire_geomodel_{mode}", "iterations": iters,
-              "inaccuracy": eps / 4.0, "A": A0.tolist(), "distance_matrix": (D / 4.0).tolist(),
-              "edge_index_draws": draws, "A_after": A1.tolist()}
-        geo_oracle(ctx, mode, A0, A1, None, D, eps, "method", rp, iters == 1)
-        if net.n_links != len(edge_list(A1)) or \
-                sorted(map(tuple, net.graph.get_edgelist())) != edge_list(A1) or \
-                not np.array_equal(net.degree(), A1.sum(axis=1)):
-            ctx.fail({"kind": "geo", "level": "method", "mode": mode, "invariant": "object-state"},
-                     "n_links / graph / degree() disagree with the rewired adjacency", rp)
-        ctx.case(("geoM", mode, A0.tobytes().hex(), D.tobytes().hex(), eps, iters, draws),
-                 not np.array_equal(A0, A1))
-        ctx.count("geo:method:completed")
-    ctx.correspond("Lean geoRun == SpatialNetwork.randomly_rewire_geomodel_I/II/III "
-                   "(adjacency after; edge list and n_links taken from the object)", reqs, impl)
+        net = make_spatial(n, A)
+        hist = []
+        for step in range(rng.choice([1, 1, 2, 3, 5])):
+            if step > 0:
+                # a further operation on the same object: new mode / distances / tolerance
+                if rng.random() < 0.3:
+                    if not dist_step(net, hist):
+                        break
+                    hist.append("set_random_links_by_distance")
+                    if rng.random() < 0.5:
+                        continue
+                mode = rng.choice(["I", "II", "III"])
+                if rng.random() < 0.5:
+                    _dk, D = dist_matrix(rng, n)
+                    D = np.maximum(D, D.T)
+                eps = rng.choice([1, 2, 3, 5, 400, 2 ** 40])
+            if rng.random() < 0.5:
+                net.degree()                                # fill the caches with the current state
+            A0 = net.adjacency.copy()
+            e0 = np.array(net.graph.get_edgelist()).reshape(-1, 2)
+            E0 = int(net.n_links)
+            if len(e0) == 0:
+                break
+            iters = rng.choice([1, 1, 2, 5, 12, 0])
+            sh = pow2_shift()
+            sup, state = uniform_pairs(len(e0), min(2500, 5 + iters * (len(e0) ** 2 + 5)))
+            completed, err = True, None
+            Dm = dist_variant(D, sh)
+            Dm_before = Dm.copy()
+            with Patched(K, sup):
+                try:
+                    getattr(net, "randomly_rewire_geomodel_" + mode)(
+                        distance_matrix=Dm, iterations=iters, inaccuracy=eps * 2.0 ** sh / 4.0)
+                except Stop:
+                    completed = False
+                except Exception as e:  # noqa
+                    err = e
+            rp = {"call": f"{type(net).__name__}.randomly_rewire_geomodel_{mode}", "iterations": iters,
+                  "history_on_this_object": list(hist), "scale_all_distances_by_2**": sh,
+                  "inaccuracy": eps / 4.0, "A": A0.tolist(), "distance_matrix": (D / 4.0).tolist()}
+            if err is not None:
+                ctx.fail({"kind": "geo", "level": "method", "mode": mode, "invariant": "raises",
+                          "error": type(err).__name__},
+                         f"randomly_rewire_geomodel_{mode} raised {err!r}", rp)
+                break
+            if not completed:
+                ctx.count("geo:method:budget-exhausted")
+                break               # the object was not updated (exception inside the kernel)
+            idx = state["idx"]
+            draws = list(zip(idx[::2], idx[1::2]))
+            A1 = net.adjacency
+            rp.update(edge_index_draws=draws, A_after=A1.tolist())
+            reqs.append(f"geoM {MODES[mode]} {n} {enc_mat(A0)} {enc_mat(D)} {eps} {iters} {enc_mat(draws)}")
+            impl.append(f"{enc_mat(A1)}|{enc_mat(e0)}|{E0}|{iters}")
+            geo_oracle(ctx, mode, A0, A1, None, D, eps, "method", rp, iters == 1)
+            if not object_coherent(net, A1):
+                ctx.fail({"kind": "geo", "level": "method", "mode": mode, "invariant": "object-state"},
+                         "N / n_links / graph / degree() / sp_A disagree with the rewired adjacency", rp)
+            if not np.array_equal(Dm, Dm_before):
+                ctx.fail({"kind": "geo", "level": "method", "mode": mode, "invariant": "caller-array"},
+                         "the caller's distance matrix was modified", rp)
+            ctx.case(("geoM", mode, A0.tobytes().hex(), D.tobytes().hex(), eps, iters, draws, sh),
+                     not np.array_equal(A0, A1))
+            ctx.count("geo:method:completed")
+            ctx.count(f"geo:method:history-position={min(step, 3)}")
+            hist.append(f"randomly_rewire_geomodel_{mode}(iterations={iters})")
+    ctx.correspond("Lean geoMethod / distKernel == SpatialNetwork / GeoNetwork.randomly_rewire_geomodel_I/II/III, "
+                   "set_random_links_by_distance (adjacency after; edge list, E and degree array derived by "
+                   "the model; histories on one object)", reqs, impl)
 
     # ------------------------------------------------------------------
     # 3. cross links
@@ -585,16 +727,29 @@ def run(ctx):
                  not np.array_equal(C0, C1))
         ctx.count("cross:rewire:kernel:" + ("completed" if completed else "budget-exhausted"))
 
-        # ---- public methods (the kernel arguments are observed by a spy)
-        net = InteractingNetworks(adjacency=A0, directed=False, silence_level=3)
-        for variant in ("number", "density", "null", "toomany", "sparse-number", "sparse-density",
-                        "sparse-null", "sparse-toomany", "rewire"):
+        # ---- public methods: histories (the result of one call is the input of the next); the model
+        #      derives cross block, link list, link / swap counts itself; kernel arguments observed by spies
+        def as_container(nl):
+            k = rng.choice(["list", "list", "tuple", "int64-array", "NODE-array"])
+            ctx.count(f"cross:method:node_list={k}")
+            return {"list": list(nl), "tuple": tuple(nl), "int64-array": np.array(nl, dtype=np.int64),
+                    "NODE-array": np.array(nl, dtype=NODE)}[k]
+
+        weights = None if rng.random() < 0.5 else np.array([rng.randrange(1, 5) / 2.0 for _ in range(n)])
+        net = InteractingNetworks(adjacency=A0, directed=False, node_weights=weights, silence_level=3)
+        variants = ["number", "density", "null", "toomany", "sparse-number", "sparse-density",
+                    "sparse-null", "sparse-toomany", "rewire", "rewire"]
+        rng.shuffle(variants)
+        hist = []
+        for variant in variants:
             seen = {}
+            Acur = net.adjacency.copy()
+            Lc = int(Acur[np.ix_(n1, n2)].sum())
+            l1, l2 = as_container(n1), as_container(n2)
             if variant == "rewire":
-                Lc = int(A0[np.ix_(n1, n2)].sum())
                 if Lc < 2:
                     continue
-                sw = rng.choice([0.5, 1.0, 2.0, 1.5])
+                sw = rng.choice([0.5, 1.0, 2.0, 1.5, 0.25, 0.0, 3.0, 2, 1])
                 orig = IN._randomlyRewireCrossLinks
 
                 def spy(A_, C_, links_, a_, b_, ncl, nsw, orig=orig, seen=seen):
@@ -602,119 +757,139 @@ def run(ctx):
                     return orig(A_, C_, links_, a_, b_, ncl, nsw)
                 IN._randomlyRewireCrossLinks = spy
                 sup, state = int_supplier(Lc, Lc, 5 + int(sw * Lc) * (Lc * Lc + 2))
-                completed, out = True, None
+                completed, out, err = True, None, None
                 try:
                     with Patched(K, sup):
                         try:
-                            out = InteractingNetworks.RandomlyRewireCrossLinks(net, list(n1), list(n2), sw)
+                            out = InteractingNetworks.RandomlyRewireCrossLinks(net, l1, l2, sw)
                         except Stop:
                             completed = False
+                        except Exception as e:  # noqa
+                            err = e
                 finally:
                     IN._randomlyRewireCrossLinks = orig
+                rp = {"call": "InteractingNetworks.RandomlyRewireCrossLinks", "A": Acur.tolist(),
+                      "node_list1": n1, "node_list2": n2, "swaps": sw, "history": list(hist)}
+                if err is not None:
+                    ctx.fail({"kind": "cross", "op": "rewire", "level": "method", "invariant": "raises",
+                              "error": type(err).__name__},
+                             f"RandomlyRewireCrossLinks(swaps={sw}) raised {err!r}", rp)
+                    continue
                 if not completed:
                     ctx.count("cross:rewire:method:budget-exhausted")
                     continue
                 v = state["vals"]
                 draws = list(zip(v[::2], v[1::2]))
                 A1 = out.adjacency
-                rp = {"call": "InteractingNetworks.RandomlyRewireCrossLinks", "A": A0.tolist(),
-                      "node_list1": n1, "node_list2": n2, "swaps": sw, "randint_draws": draws,
-                      "A_after": A1.tolist()}
-                if seen["ncl"] != Lc or seen["nsw"] != int(Fraction(sw) * Lc):
+                rp.update(randint_draws=draws, A_after=A1.tolist())
+                swf = Fraction(sw)
+                reqs.append(f"crossrewireM {n} {enc_mat(Acur)} {enc_vec(n1)} {enc_vec(n2)} "
+                            f"{swf.numerator}/{swf.denominator} {enc_mat(draws)}")
+                impl.append(f"{enc_mat(A1)}|{enc_mat(seen['C'])}|{enc_mat(seen['links'])}|{seen['nsw']}|{seen['nsw']}")
+                if seen["ncl"] != Lc:
                     ctx.fail({"kind": "cross", "op": "rewire", "level": "method", "invariant": "swap-count"},
-                             f"kernel called with number_cross_links={seen['ncl']}, number_swaps={seen['nsw']}", rp)
-                reqs.append(f"crossrewire 1 {n} {enc_mat(A0)} {m1} {m2} {enc_mat(seen['C'])} "
-                            f"{enc_mat(seen['links'])} {enc_vec(n1)} {enc_vec(n2)} {seen['nsw']} {enc_mat(draws)}")
-                # cross_A / cross_links after are internal: take them from the model's answer positions
-                impl.append(("A-only", enc_mat(A1), str(seen["nsw"])))
-                cross_oracle(ctx, "rewire", "method", A0, A1, n1, n2, Lc, rp, True)
-                ctx.case(("crewM", A0.tobytes().hex(), tuple(n1), tuple(n2), sw, draws),
-                         not np.array_equal(A0, A1))
+                             f"kernel called with number_cross_links={seen['ncl']}, there are {Lc}", rp)
+                cross_oracle(ctx, "rewire", "method", Acur, A1, n1, n2, Lc, rp, True)
+                ctx.case(("crewM", Acur.tobytes().hex(), tuple(n1), tuple(n2), sw, draws),
+                         not np.array_equal(Acur, A1))
                 ctx.count("cross:rewire:method:completed")
-                continue
-            # ---- RandomlySetCrossLinks(_sparse)
-            Lc = int(A0[np.ix_(n1, n2)].sum())
-            kw, expect = {}, None
-            base = variant.replace("sparse-", "")
-            if base == "number":
-                kk = rng.randrange(0, m1 * m2 + 1)
-                kw, expect = {"number_cross_links": kk}, kk
-            elif base == "density":
-                dens = rng.choice([0.0, 0.25, 0.5, 0.75, 1.0])
-                kw, expect = {"cross_link_density": dens}, int(Fraction(dens) * m1 * m2)
-            elif base == "null":
-                kw, expect = {}, Lc
             else:
-                kw, expect = {"number_cross_links": m1 * m2 + rng.randrange(1, 4)}, Lc
-            fn = InteractingNetworks.RandomlySetCrossLinks_sparse if variant.startswith("sparse") \
-                else InteractingNetworks.RandomlySetCrossLinks
-            orig = IN._randomlySetCrossLinks
+                # ---- RandomlySetCrossLinks(_sparse)
+                kw, expect = {}, None
+                base = variant.replace("sparse-", "")
+                dens_s, num_s = "-", "-"
+                if base == "number":
+                    kk = rng.randrange(0, m1 * m2 + 1)
+                    kw, expect = {"number_cross_links": kk}, kk
+                    num_s = str(kk)
+                elif base == "density":
+                    dens = rng.choice([0.0, 0.25, 0.5, 0.75, 1.0, 0.125, 0.375, 0.9375, 1.5])
+                    expect = int(Fraction(dens) * m1 * m2)
+                    kw = {"cross_link_density": dens}
+                    if rng.random() < 0.3:
+                        kw["number_cross_links"] = rng.randrange(0, m1 * m2 + 1)    # density has priority
+                        num_s = str(kw["number_cross_links"])
+                    if expect > m1 * m2:
+                        expect = Lc
+                    dens_s = f"{Fraction(dens).numerator}/{Fraction(dens).denominator}"
+                elif base == "null":
+                    kw, expect = {}, Lc
+                else:
+                    kw, expect = {"number_cross_links": m1 * m2 + rng.randrange(1, 4)}, Lc
+                    num_s = str(kw["number_cross_links"])
+                sparse = variant.startswith("sparse")
+                fn = InteractingNetworks.RandomlySetCrossLinks_sparse if sparse \
+                    else InteractingNetworks.RandomlySetCrossLinks
+                orig = IN._randomlySetCrossLinks
 
-            def spy2(A_, C_, kk_, a_, b_, mm, nn, orig=orig, seen=seen):
-                seen.update(k=int(kk_), C=C_.copy())
-                return orig(A_, C_, kk_, a_, b_, mm, nn)
-            IN._randomlySetCrossLinks = spy2
-            sup, state = int_supplier(m1, m2, 5 + expect * (m1 * m2 + 2))
-            completed, out, err = True, None, None
-            try:
-                with Patched(K, sup):
-                    try:
-                        with contextlib.redirect_stdout(io.StringIO()):
-                            out = fn(net, list(n1), list(n2), **kw)
-                    except Stop:
-                        completed = False
-                    except Exception as e:  # noqa
-                        err = e
-            finally:
-                IN._randomlySetCrossLinks = orig
-            rp = {"call": fn.__name__, "A": A0.tolist(), "node_list1": n1, "node_list2": n2, **kw}
-            if err is not None:
-                ctx.fail({"kind": "cross", "op": "set", "level": "method", "variant": variant,
-                          "invariant": "raises", "error": type(err).__name__},
-                         f"{fn.__name__}({kw}) raised {type(err).__name__}: {err}", rp)
-                continue
-            if not completed:
-                ctx.count("cross:set:method:budget-exhausted")
-                continue
-            v = state["vals"]
-            if variant.startswith("sparse"):
-                draws = [(int(a * m1), int(b * m2)) for a, b in zip(v[::2], v[1::2])]
-                kmodel = expect
-            else:
-                draws = list(zip(v[::2], v[1::2]))
-                kmodel = seen["k"]
-            A1 = np.asarray(out.adjacency)
-            rp.update(draws=draws, A_after=A1.tolist())
-            reqs.append(f"crossset 1 {n} {enc_mat(A0)} {m1} {m2} {enc_mat(np.zeros((m1, m2)))} {kmodel} "
-                        f"{enc_vec(n1)} {enc_vec(n2)} {enc_mat(draws)}")
-            impl.append(("A-only", enc_mat(A1), str(kmodel)))
-            cross_oracle(ctx, "set:" + variant, "method", A0, A1, n1, n2, expect, rp, False)
-            ctx.case(("csetM", variant, A0.tobytes().hex(), tuple(n1), tuple(n2), str(kw), draws), expect > 0)
-            ctx.count(f"cross:set:method:{variant}")
+                def spy2(A_, C_, kk_, a_, b_, mm, nn, orig=orig, seen=seen):
+                    seen.update(k=int(kk_), C=C_.copy())
+                    return orig(A_, C_, kk_, a_, b_, mm, nn)
+                IN._randomlySetCrossLinks = spy2
+                sup, state = int_supplier(m1, m2, 5 + expect * (m1 * m2 + 2))
+                completed, out, err = True, None, None
+                try:
+                    with Patched(K, sup):
+                        try:
+                            with contextlib.redirect_stdout(io.StringIO()):
+                                out = fn(net, l1, l2, **kw)
+                        except Stop:
+                            completed = False
+                        except Exception as e:  # noqa
+                            err = e
+                finally:
+                    IN._randomlySetCrossLinks = orig
+                rp = {"call": fn.__name__, "A": Acur.tolist(), "node_list1": n1, "node_list2": n2,
+                      "history": list(hist), **kw}
+                if err is not None:
+                    ctx.fail({"kind": "cross", "op": "set", "level": "method", "variant": variant,
+                              "invariant": "raises", "error": type(err).__name__},
+                             f"{fn.__name__}({kw}) raised {type(err).__name__}: {err}", rp)
+                    continue
+                if not completed:
+                    ctx.count("cross:set:method:budget-exhausted")
+                    continue
+                v = state["vals"]
+                if sparse:
+                    draws = [(int(a * m1), int(b * m2)) for a, b in zip(v[::2], v[1::2])]
+                else:
+                    draws = list(zip(v[::2], v[1::2]))
+                A1 = np.asarray(out.adjacency)
+                kreal = int(A1[np.ix_(n1, n2)].sum()) if sparse else seen["k"]
+                rp.update(draws=draws, A_after=A1.tolist())
+                reqs.append(f"crosssetM {'sparse' if sparse else 'dense'} {n} {enc_mat(Acur)} {enc_vec(n1)} "
+                            f"{enc_vec(n2)} {dens_s} {num_s} {enc_mat(draws)}")
+                impl.append(f"{enc_mat(A1)}|{kreal}|{kreal}")
+                cross_oracle(ctx, "set:" + variant, "method", Acur, A1, n1, n2, expect, rp, False)
+                ctx.case(("csetM", variant, Acur.tobytes().hex(), tuple(n1), tuple(n2), str(kw), draws), expect > 0)
+                ctx.count(f"cross:set:method:{variant}")
+            # the input network and the caller's node lists are left as they were; the result is coherent
+            if not np.array_equal(net.adjacency, Acur) or list(l1) != list(n1) or list(l2) != list(n2):
+                ctx.fail({"kind": "cross", "op": variant, "level": "method", "invariant": "input-unchanged"},
+                         "the input network / node lists were modified", rp)
+            if out.N != n or out.n_links != int(A1.sum()) // 2 or \
+                    not np.array_equal(out.degree(), A1.sum(axis=1)) or \
+                    not (weights is None or np.array_equal(out.node_weights, weights)):
+                ctx.fail({"kind": "cross", "op": variant, "level": "method", "invariant": "object-state"},
+                         "N / n_links / degree() / node_weights of the returned network are incoherent", rp)
+            if rng.random() < 0.5:
+                net = out                                   # history: go on from the result
+                hist.append(variant)
+                ctx.count(f"cross:method:history-length={min(len(hist), 4)}")
 
-    # answers where only the adjacency is observable: compare field 0 and the last field
-    model = common.driver(ctx.pid, reqs)
-    bad = []
-    for i, (r, im) in enumerate(zip(reqs, impl)):
-        mo = model[i]
-        if isinstance(im, tuple):
-            parts = mo.split("|")
-            mo = parts[0] + "|" + parts[-1]
-            im = im[1] + "|" + im[2]
-        if mo != im:
-            bad.append(f"{r[:300]} :: model={mo[:200]} impl={im[:200]}")
-    ctx.obligation(f"correspondence: Lean crossSetRun/crossRun/overwrite == compiled cross-link kernels and "
-                   f"InteractingNetworks.RandomlySetCrossLinks(_sparse)/RandomlyRewireCrossLinks "
-                   f"({len(reqs)} requests)", "correspondence", not bad, "\n".join(bad[:5]))
-    ctx.extra["requests_compared"] = ctx.extra.get("requests_compared", 0) + len(reqs)
+    ctx.correspond("Lean crossSetRun/crossRun/overwrite == compiled cross-link kernels; "
+                   "randomlySetCrossLinks/setCount(Sparse)/randomlyRewireCrossLinks/swapCount/crossBlock/onesList == "
+                   "InteractingNetworks.RandomlySetCrossLinks(_sparse)/RandomlyRewireCrossLinks "
+                   "(adjacency, cross matrix and link list handed to the kernel, link / swap counts; histories)",
+                   reqs, impl)
 
     # ------------------------------------------------------------------
-    # 4. Barabasi-Albert (own implementation)
+    # 4. Barabasi-Albert (own implementation); `targets` and `last_child` observed through np.zeros
     # ------------------------------------------------------------------
     reqs, impl = [], []
     for c in range(400 if quick else 5000):
-        m = rng.choice([1, 1, 2, 2, 3, 4])
-        N = m + 1 + rng.choice([0, 1, 2, 3, 5, 8, 12])
+        m = rng.choice([1, 1, 2, 2, 3, 4, 6] if quick else [1, 2, 3, 4, 5, 6, 9])
+        N = m + 1 + rng.choice([0, 1, 2, 3, 5, 8, 12] if quick else [0, 1, 2, 3, 5, 8, 12, 20, 40])
         natural = rng.random() < 0.3
         state = {"left": 60 * m * N + 50, "idx": []}
         nseed = rng.randrange(2 ** 31)
@@ -727,30 +902,45 @@ def run(ctx):
             if state["left"] <= 0:
                 raise Stop()
             state["left"] -= 1
-            u = float(nprs.uniform(low, high)) if natural else rng.randrange(int(high)) + rng.choice([0.0, 0.5, 0.25])
+            u = float(nprs.uniform(low, high)) if natural else \
+                rng.randrange(int(high)) + rng.choice([0.0, 0.5, 0.25, 0.999])
             state["idx"].append(int(u))
             return u
-        out = None
-        with Patched(K, sup):
+        out, err = None, None
+        with Patched(K, sup, spy_zeros=True) as pt:
             try:
                 out = Network.BarabasiAlbert(n_nodes=N, n_links_each=m)
             except Stop:
                 pass
-        if out is None:
-            ctx.count("ba:budget-exhausted")
-            continue
-        A1 = np.asarray(out.toarray())
-        reqs.append(f"ba {N} {m} {enc_vec(state['idx'])}")
-        impl.append(f"{enc_mat(A1)}|{N}|0")
+            except Exception as e:  # noqa
+                err = e
         rp = {"call": "Network.BarabasiAlbert", "n_nodes": N, "n_links_each": m,
-              "target_index_draws": state["idx"], "A": A1.tolist()}
+              "target_index_draws": state["idx"]}
 
         def badba(inv, what, rp=rp):
             ctx.fail({"kind": "model", "generator": "BarabasiAlbert", "invariant": inv},
                      f"BarabasiAlbert(n_nodes={rp['n_nodes']}, n_links_each={rp['n_links_each']}): {what}", rp)
+        if err is not None:
+            badba("raises", f"raised {err!r}")
+            continue
+        if out is None:
+            ctx.count("ba:budget-exhausted")
+            continue
+        A1 = np.asarray(out.toarray())
+        rp["A"] = A1.tolist()
+        arrs = [z for z in pt.zeros]
+        if len(arrs) >= 2 and len(arrs[1]) == N:
+            targets, last_child = arrs[0], arrs[1]
+            reqs.append(f"baT {N} {m} {enc_vec(state['idx'])}")
+            impl.append(f"{enc_mat(A1)}|{N}|0|{enc_vec(targets)}|{enc_vec(last_child)}")
+            ctx.count("ba:targets-observed")
+        else:
+            reqs.append(f"ba {N} {m} {enc_vec(state['idx'])}")
+            impl.append(f"{enc_mat(A1)}|{N}|0")
+            ctx.count("ba:targets-not-observed")
         if not simple_undirected(A1):
             badba("simple", "not a simple undirected graph")
-        elif int(A1.sum()) // 2 != m * (N - m):
+        elif A1.shape != (N, N) or int(A1.sum()) // 2 != m * (N - m):
             badba("link-count", f"{int(A1.sum()) // 2} links, documented {m * (N - m)}")
         else:
             for j in range(m + 1, N):
@@ -760,7 +950,8 @@ def run(ctx):
         ctx.case(("ba", N, m, tuple(state["idx"])), N > m + 1,
                  {"op": "BarabasiAlbert", "N": N, "m": m, "draws": state["idx"][:10]} if N <= 6 else None)
         ctx.count("ba:" + ("numpy-stream" if natural else "driven-stream"))
-    ctx.correspond("Lean baRun == Network.BarabasiAlbert (adjacency; recorded target-index draws)", reqs, impl)
+    ctx.correspond("Lean baRun == Network.BarabasiAlbert (adjacency, final `targets` and `last_child` arrays; "
+                   "recorded target-index draws)", reqs, impl)
 
     # ------------------------------------------------------------------
     # 5. igraph-backed generators / rewiring, distance-kernel model: invariants only
@@ -769,8 +960,9 @@ def run(ctx):
         with contextlib.redirect_stdout(io.StringIO()):
             return f(*a, **k)
 
+    reqs, impl = [], []
     for c in range(40 * scale):
-        N = rng.randrange(2, 14)
+        N = rng.randrange(2, 14) if rng.random() < 0.9 else rng.randrange(14, 60)
         maxl = N * (N - 1) // 2
         L = rng.choice([0, maxl, rng.randrange(0, maxl + 1)])
         A = np.asarray(quiet(Network.ErdosRenyi, n_nodes=N, n_links=L))
@@ -804,56 +996,128 @@ def run(ctx):
             ctx.fail({"kind": "model", "generator": "WattsStrogatz", "invariant": "link-count"},
                      f"WattsStrogatz(N={Nw}, k={k}) gave {int(A.sum()) // 2} links / not simple",
                      {"N": Nw, "k": k, "A": A.tolist()})
+        # Network.Model / SpatialNetwork.Model / GeoNetwork.Model with every documented model name
         mm = rng.randrange(1, 4)
         NN = mm + 1 + rng.randrange(0, 8)
-        net = quiet(Network.Model, "BarabasiAlbert", n_nodes=NN, n_links_each=mm)
-        ctx.count("generator:Network.Model(BarabasiAlbert)")
-        ctx.case(("modelBA", NN, mm, net.adjacency.tobytes().hex()), NN > mm + 1)
-        if net.N != NN or net.n_links != mm * (NN - mm) or not simple_undirected(net.adjacency) or \
-                not np.array_equal(net.degree(), net.adjacency.sum(axis=1)):
-            ctx.fail({"kind": "model", "generator": "Model(BarabasiAlbert)", "invariant": "link-count"},
-                     f"Network.Model('BarabasiAlbert', n_nodes={NN}, n_links_each={mm}): N={net.N}, "
-                     f"n_links={net.n_links}, documented {mm * (NN - mm)}",
-                     {"n_nodes": NN, "n_links_each": mm, "A": net.adjacency.tolist()})
+        G0 = rand_graph(rng, NN, 0.5)
+        mname, kwargs, expect_links = rng.choice([
+            ("BarabasiAlbert", {"n_nodes": NN, "n_links_each": mm}, mm * (NN - mm)),
+            ("BarabasiAlbert", {"n_nodes": NN, "n_links_each": mm}, mm * (NN - mm)),
+            ("ErdosRenyi", {"n_nodes": NN, "n_links": min(mm * 2, NN * (NN - 1) // 2)},
+             min(mm * 2, NN * (NN - 1) // 2)),
+            ("BarabasiAlbert_igraph", {"n_nodes": NN, "n_links_each": mm}, None),
+            ("Configuration", {"degree": G0.sum(axis=1).tolist()}, None)])
+        cls = rng.choice(["Network", "Network", "SpatialNetwork", "GeoNetwork"])
+        try:
+            if cls == "Network":
+                net = quiet(Network.Model, mname, **kwargs)
+            elif cls == "SpatialNetwork":
+                grid = Grid(np.arange(2.0), np.array([np.arange(NN) * 1.0, np.arange(NN) * 2.0]), silence_level=3)
+                net = quiet(SpatialNetwork.Model, mname, grid, **kwargs)
+            else:
+                grid = GeoGrid(np.arange(2.0), np.linspace(-60, 60, NN), np.linspace(-100, 100, NN), silence_level=3)
+                net = quiet(GeoNetwork.Model, mname, grid, **kwargs)
+            ctx.count(f"generator:{cls}.Model({mname})")
+            ctx.case(("model", cls, mname, str(kwargs), net.adjacency.tobytes().hex()), NN > mm + 1)
+            if net.N != NN or (expect_links is not None and net.n_links != expect_links) or \
+                    not simple_undirected(net.adjacency) or \
+                    net.n_links != int(net.adjacency.sum()) // 2 or \
+                    not np.array_equal(net.degree(), net.adjacency.sum(axis=1)) or \
+                    (mname == "Configuration" and np.any(net.degree() > G0.sum(axis=1))):
+                ctx.fail({"kind": "model", "generator": f"Model({mname})", "class": cls, "invariant": "link-count"},
+                         f"{cls}.Model('{mname}', {kwargs}): N={net.N}, n_links={net.n_links}, "
+                         f"documented {expect_links}",
+                         {"class": cls, "model": mname, "kwargs": kwargs, "A": net.adjacency.tolist()})
+        except Exception as e:  # noqa
+            ctx.fail({"kind": "model", "generator": f"Model({mname})", "class": cls, "invariant": "raises",
+                      "error": type(e).__name__},
+                     f"{cls}.Model('{mname}', {kwargs}) raised {e!r}", {"class": cls, "model": mname, "kwargs": kwargs})
         mb = rng.randrange(1, 4)
         A = np.asarray(Network.BarabasiAlbert_igraph(n_nodes=N + 2, n_links_each=mb))
         ctx.count("generator:BarabasiAlbert_igraph")
-        if not simple_undirected(A):
+        if not simple_undirected(A) or A.shape[0] != N + 2 or np.any(A.sum(axis=1)[mb + 1:] < 1):
             ctx.fail({"kind": "model", "generator": "BarabasiAlbert_igraph", "invariant": "simple"},
-                     "BarabasiAlbert_igraph not simple", {"n_nodes": N + 2, "m": mb, "A": A.tolist()})
-        # Network.randomly_rewire (igraph rewire + set_edge_list)
-        n = rng.randrange(4, 10)
+                     "BarabasiAlbert_igraph not simple / wrong node count", {"n_nodes": N + 2, "m": mb, "A": A.tolist()})
+        # Network.randomly_rewire = igraph rewire (trusted, its contract is checked here) + set_edge_list,
+        # which is modelled (`fromEdges`): the edge list handed over is observed by a spy.  Histories.
+        n = rng.randrange(2, 10)
         gk, G = structured_graph(rng, n)
         if rng.random() < 0.3:
             G[n - 1, :] = G[:, n - 1] = 0      # trailing isolated node
-        if G.sum() > 0:
-            net = Network(adjacency=G, directed=False, silence_level=3)
-            it = rng.choice([1, 3, 10, 50])
-            net.randomly_rewire(it)
+        if rng.random() < 0.1:
+            G[:] = 0                           # no links at all
+        net = Network(adjacency=G, directed=False, silence_level=3)
+        for _h in range(rng.choice([1, 1, 2, 3])):
+            G0 = net.adjacency.copy()
+            it = rng.choice([1, 3, 10, 50, 0])
+            seen = {}
+            orig_sel = net.set_edge_list
+
+            def spy_sel(edge_list_, n_nodes=None, seen=seen, orig_sel=orig_sel):
+                seen.update(edges=[tuple(map(int, e)) for e in edge_list_], n_nodes=n_nodes)
+                return orig_sel(edge_list_, n_nodes=n_nodes)
+            net.set_edge_list = spy_sel
+            err = None
+            try:
+                net.randomly_rewire(it)
+            except Exception as e:  # noqa
+                err = e
+            del net.set_edge_list
+            rp = {"A": G0.tolist(), "iterations": it}
+            if err is not None:
+                ctx.fail({"kind": "rewire", "method": "randomly_rewire", "invariant": "raises",
+                          "error": type(err).__name__}, f"randomly_rewire raised {err!r}", rp)
+                break
             A1 = net.adjacency
-            ctx.case(("rr", G.tobytes().hex(), it, A1.tobytes().hex()), not np.array_equal(G, A1))
+            rp["A_after"] = A1.tolist()
+            ctx.case(("rr", G0.tobytes().hex(), it, A1.tobytes().hex()), not np.array_equal(G0, A1))
             ctx.count("randomly_rewire")
-            if A1.shape != G.shape or not simple_undirected(A1) or \
-                    not np.array_equal(A1.sum(axis=1), G.sum(axis=1)) or \
-                    net.n_links != int(G.sum()) // 2 or \
+            es = seen.get("edges", [])
+            if seen.get("n_nodes") is not None:
+                reqs.append(f"edges {int(seen['n_nodes'])} {enc_mat(es) if es else '-'}")
+                impl.append(enc_mat(A1))
+            # igraph's contract (trusted base): a simple edge list with the old incidence counts
+            inc = np.zeros(n, dtype=int)
+            for a_, b_ in es:
+                inc[a_] += 1
+                inc[b_] += 1
+            if len({frozenset(e) for e in es}) != len(es) or any(a_ == b_ for a_, b_ in es) or \
+                    not np.array_equal(inc, G0.sum(axis=1)):
+                ctx.count("randomly_rewire:igraph-contract-broken")
+            if A1.shape != G0.shape or not simple_undirected(A1) or \
+                    not np.array_equal(A1.sum(axis=1), G0.sum(axis=1)) or \
+                    net.n_links != int(G0.sum()) // 2 or net.N != n or \
+                    not np.array_equal(net.degree(), A1.sum(axis=1)) or \
                     sorted(map(tuple, net.graph.get_edgelist())) != edge_list(A1):
                 ctx.fail({"kind": "rewire", "method": "randomly_rewire", "invariant": "degree",
-                          "n_nodes_changed": A1.shape != G.shape},
-                         f"randomly_rewire: {G.shape[0]} nodes, degrees {G.sum(axis=1).tolist()} -> "
+                          "n_nodes_changed": A1.shape != G0.shape},
+                         f"randomly_rewire: {G0.shape[0]} nodes, degrees {G0.sum(axis=1).tolist()} -> "
                          f"{A1.shape[0]} nodes, degrees {A1.sum(axis=1).tolist()} / not simple / object incoherent",
-                         {"A": G.tolist(), "iterations": it, "A_after": A1.tolist()})
-        # distance-kernel model
+                         rp)
+                break
+        # Network.set_edge_list directly: duplicates, both orientations, explicit node count
+        n = rng.randrange(2, 9)
+        es = [(rng.randrange(n), rng.randrange(n)) for _ in range(rng.randrange(1, 12))]
+        es = [(a_, b_) for a_, b_ in es if a_ != b_] or [(0, 1)]
+        if rng.random() < 0.3:
+            es += [(b_, a_) for a_, b_ in es[:3]]
+        nn_ = rng.choice([n, n, n + 2, max(a_ for e in es for a_ in e) + 1, max(a_ for e in es for a_ in e)])
+        net = Network(adjacency=rand_graph(rng, 3, 0.5), directed=False, silence_level=3)
+        try:
+            net.set_edge_list(es if rng.random() < 0.5 else np.array(es), n_nodes=nn_)
+            got = enc_mat(net.adjacency)
+            if net.N != nn_ or not simple_undirected(net.adjacency):
+                ctx.fail({"kind": "rewire", "method": "set_edge_list", "invariant": "node-count"},
+                         f"set_edge_list(n_nodes={nn_}) gave N={net.N} / not simple", {"edges": es, "n_nodes": nn_})
+        except ValueError:
+            got = "raise:ValueError"
+        reqs.append(f"edges {nn_} {enc_mat(es)}")
+        impl.append(got)
+        ctx.case(("sel", nn_, tuple(es)), True)
+        ctx.count("set_edge_list:" + ("ValueError" if got.startswith("raise") else "built"))
+        # distance-kernel model on a fresh object
         nn_ = rng.randrange(2, 9)
-        grid = Grid(np.arange(2.0), np.array([np.arange(nn_) * 1.0, np.arange(nn_) * 2.0]), silence_level=3)
-        G = rand_graph(rng, nn_, 0.4)
-        net = SpatialNetwork(grid=grid, adjacency=G, directed=False, silence_level=3)
-        a, b = rng.choice([0.0, -0.5, -1.0]), rng.choice([0.0, -0.1, -0.5, -4.0])
-        net.set_random_links_by_distance(a=a, b=b)
-        A1 = net.adjacency
-        ctx.case(("dist", nn_, a, b, A1.tobytes().hex()), A1.sum() > 0)
-        ctx.count("set_random_links_by_distance")
-        if A1.shape != G.shape or not simple_undirected(A1) or net.n_links != int(A1.sum()) // 2 or \
-                (a == 0.0 and b == 0.0 and int(A1.sum()) != nn_ * (nn_ - 1)):
-            ctx.fail({"kind": "model", "generator": "set_random_links_by_distance", "invariant": "simple"},
-                     "set_random_links_by_distance: result not undirected loop-free / p=1 not complete",
-                     {"a": a, "b": b, "A_after": A1.tolist()})
+        net = make_spatial(nn_, rand_graph(rng, nn_, 0.4))
+        dist_step(net, [])
+    ctx.correspond("Lean fromEdges == Network.set_edge_list (directly and as called by randomly_rewire); "
+                   "distKernel == set_random_links_by_distance on fresh objects", reqs, impl)
